@@ -216,3 +216,98 @@ def in_fragment(t):
         if x.op not in ('in', 'const', 'select', 'fcmp', 'minnum', 'maxnum', 'not', 'and', 'or', 'xor'):
             return False
     return True
+
+
+# ---------------------------------------------------------------------------------------------
+# integer comparisons: unsigned and signed order of the same bit patterns
+
+_IFRAG = ('in', 'select', 'icmp', 'umin', 'umax', 'smin', 'smax', 'not', 'and', 'or', 'xor')
+
+
+def in_int_fragment(t):
+    for x in tm.walk(t):
+        if x.op not in _IFRAG:
+            return False
+        if x.op in ('and', 'or', 'xor', 'not') and x.w != 1:
+            return False
+    return True
+
+
+class IEval:
+    """env: lane term -> (unsigned rank, signed key)"""
+
+    def __init__(self, env):
+        self.env = env
+        self.memo = {}
+
+    def v(self, t):
+        r = self.memo.get(t)
+        if r is None:
+            r = self.memo[t] = self._v(t)
+        return r
+
+    def _v(self, t):
+        if t in self.env:
+            return self.env[t]
+        op = t.op
+        if op == 'select':
+            return self.v(t.args[1]) if self.b(t.args[0]) else self.v(t.args[2])
+        if op in ('umin', 'umax', 'smin', 'smax'):
+            a, b = self.v(t.args[0]), self.v(t.args[1])
+            i = 0 if op[0] == 'u' else 1
+            if op.endswith('min'):
+                return a if a[i] <= b[i] else b
+            return a if a[i] >= b[i] else b
+        raise KeyError(op)
+
+    def b(self, t):
+        op = t.op
+        if op == 'const':
+            return bool(t.args[0])
+        if op == 'icmp':
+            a, b = self.v(t.args[1]), self.v(t.args[2])
+            p = t.args[0]
+            if p == 'eq':
+                return a[0] == b[0]
+            if p == 'ne':
+                return a[0] != b[0]
+            i = 0 if p[0] == 'u' else 1
+            return a[i] < b[i] if p.endswith('lt') else a[i] <= b[i]
+        if op == 'not':
+            return not self.b(t.args[0])
+        if op in ('and', 'or', 'xor'):
+            x, y = self.b(t.args[0]), self.b(t.args[1])
+            return (x and y) if op == 'and' else (x or y) if op == 'or' else (x != y)
+        if op == 'select':
+            return self.b(t.args[1]) if self.b(t.args[0]) else self.b(t.args[2])
+        raise KeyError(op)
+
+
+def int_equivalent(t1, t2, boolean=False, max_ops=4):
+    """comparison-only integer terms: equal for every weak (unsigned) ordering of the operands x every position of
+    the sign boundary?  True / (False, description, v1, v2) / None"""
+    if not (in_int_fragment(t1) and in_int_fragment(t2)):
+        return None
+    lanes = []
+    for t in (t1, t2):
+        for x in tm.walk(t):
+            if x.op == 'in' and x not in lanes:
+                lanes.append(x)
+    if not lanes or len(lanes) > max_ops:
+        return None
+    for ranks in _orders(len(lanes)):
+        nr = max(ranks) + 1
+        for cut in range(nr + 1):
+            env = {}
+            for l, r in zip(lanes, ranks):
+                env[l] = (r, r - nr if r >= cut else r)
+            e = IEval(env)
+            try:
+                a = e.b(t1) if boolean else e.v(t1)
+                b = e.b(t2) if boolean else e.v(t2)
+            except KeyError:
+                return None
+            if a != b:
+                desc = ', '.join('%s=rank%d%s' % (tm.show(l), r, ' (msb set)' if r >= cut else '') for l, r in zip(lanes, ranks))
+                return (False, desc, a, b)
+    return True
